@@ -392,6 +392,7 @@ Definition meth (v : gval) (m : string) (args : list gval) : res gval :=
   | VSeqO res err, [_; _] => if m =? "GetNextBatch" then RRet (VTuple [res; err]) else RFail ("sequencer." ++ m)
   | VBatchQ b, [] => if m =? "Hash" then RRet (VTuple [VHashQ b; VNil]) else RFail ("Batch." ++ m)
   | VDAErr e, [] => if m =? "Error" then RRet (VStr (Proxy.e_msg e)) else RFail ("error." ++ m)
+  | VStr a, [VStr b] => if m =? "Equal" then RRet (VBool (str_eqb a b)) else RFail ("string." ++ m)   (* ds.Key.Equal: keys by name *)
   | VSent _ t, [] => if m =? "Error" then RRet (VStr t) else RFail ("error." ++ m)
   | _, _ => RFail ("method " ++ m)
   end.
@@ -489,6 +490,7 @@ Definition builtin (globals : env) (f : string) (args : list gval) : res gval :=
     | _ => RFail "append"
     end
   else if f =? "uint64" then match args with [v] => RRet v | _ => RFail "uint64" end
+  else if f =? "string" then match args with [v] => RRet v | _ => RFail "string" end      (* string(bytes): the same symbolic value *)
   else if f =? "errors.Is" then
     match args with
     | [VDAErr e; VSent sn _] => RRet (VBool (Proxy.is_sent e sn))
@@ -665,6 +667,7 @@ Definition mut_call (f : string) (args : list gval) : option (gval * list (nat *
   if f =? "json.Unmarshal" then                                   (* json.Unmarshal(raw, &n): a stored decimal number *)
     match args with
     | [VTok t [VN n]; _] => if t =? "decimal" then Some (VNil, [(1%nat, VN n)]) else Some (VErr true, [])
+    | [VTok t [v]; _] => if t =? "json-of" then Some (VNil, [(1%nat, v)]) else Some (VErr true, [])   (* the JSON text of a value *)
     | [_; _] => Some (VErr true, [])
     | _ => None
     end
@@ -839,7 +842,10 @@ Fixpoint eval (fuel : nat) (fs : list (string * gfun)) (globals en : env) (e : g
           | VList (x :: _), VZ 0%Z => RRet x
           | VList [], _ => RFail "index out of range"
           | VIds [] _, _ => RFail "index out of range"
-          | _, _ => RFail "index"
+          | _, _ => match va, vi with
+                    | VList (_ :: y :: _), VZ 1%Z => RRet y          (* the second element of a list of known shape *)
+                    | _, _ => RFail "index"
+                    end
           end))
     | ESliceFrom a lo =>
         bind (ev a) (fun va => bind (ev lo) (fun vl =>
